@@ -362,12 +362,12 @@ func desugar(s string) (string, error) {
 	}
 	out := sb.String()
 	out = reOld.ReplaceAllString(out, "old_(")
-	out = reResult.ReplaceAllString(out, "result_$1")
+	out = reRangeIdx.ReplaceAllString(out, "rangeidx_()")
 	return out, nil
 }
 
 var reOld = regexp.MustCompile(`\bold\(`)
-var reResult = regexp.MustCompile(`\$r([0-9]+)\b`)
+var reRangeIdx = regexp.MustCompile(`\$i\b`)
 
 func desugarIndex(inner string) (string, error) {
 	// slice expressions a:b contain top-level ':'
